@@ -1,5 +1,5 @@
 """C08 Downlink local state equals the fold of what it received."""
-from mirlib import AnchorMissing, describe_call, describe_operand, guards, _suffix_match
+from mirlib import AnchorMissing, describe_call, describe_operand, dom_guards, guards, _suffix_match
 from rules.common import aggregates, owner_def, panic_sites, where
 
 META = {
